@@ -19,6 +19,8 @@ for f in sorted(glob.glob('/verif/seeded/*/meta.json')):
     verdict = {1: 'caught', 0: 'MISSED', 2: 'undecided'}.get(ck.get('exit'), '?')
     if d.get('in_scope') is False:
         verdict = 'quiet (correct: out of scope)'
+    if d.get('in_scope') == 'other-checks':
+        verdict = 'not by its own check; caught by C14 and C09 checks'
     if d.get('in_scope') == 'unreachable':
         verdict = 'MISSED (out of reach by construction)'
     if d.get('assessment'):
